@@ -11,6 +11,7 @@ Both links are theorems about the models the drivers run against `filter.Filter`
 import Biogo.Properties.C14
 import Biogo.Properties.C15_merge
 import Biogo.Proofs.PalsChain
+import Biogo.Proofs.PalsChainDomain
 
 namespace Biogo.Properties.C15_chain
 open Biogo.Spec.Filter Biogo.Spec.Kmer Biogo.Proofs.Kmer Biogo.Proofs.FilterComplete
@@ -35,18 +36,20 @@ theorem validity_allValid (lk : Lookup) (s : List UInt8) (h : Biogo.Proofs.Filte
   have := h _ (List.getElem_mem hi')
   simp [validity, Array.getD, hi', this]
 
-/-- **`epsmatch_inside_trapezoid`** — for target and query over the four-letter alphabet, the
+/-- **`epsmatch_inside_trapezoid_given_merge`** (the second wave's statement, kept): for target and
+    query over the four-letter alphabet, the
     parameter ranges of C14's `filter_complete`, `maxIGap ≥ 1`: let `hits` be what the filter model
     returns, `sorted` any list with the same elements in ascending `From` (the morass), and `traps`
-    what the merger model returns for it.  Then every ε-match `t[a:a+n] ~ q[b:b+n]` (at most `e`
+    what the merger model returns for it — *given that it answers* (`hm`; `epsmatch_inside_trapezoid`
+    below discharges this hypothesis).  Then every ε-match `t[a:a+n] ~ q[b:b+n]` (at most `e`
     substitutions) — in a self comparison: every such match at least
     `MaxError + maxIGap + tubeWidth` diagonals above the main diagonal, below that the merger's cut
     may drop the covering hit on purpose — lies in a returned trapezoid: its diagonal `b - a` is
     within `[Left, Right]`, its query interval `[b, b+n)` overlaps `[Bottom, Top]`, and the
     trapezoid is at least `k` high (it contains a filter hit, which contains a whole k-mer), so it
     passes the pre-screen `t.Top-t.Bottom >= a.k` of `AlignTraps` and — unless an earlier hit
-    already covers it — is handed to the kernel: **the pair is guaranteed to be seeded**. -/
-theorem epsmatch_inside_trapezoid {lk : Lookup} (hlk : FourLetter lk) (t q : List UInt8)
+    already covers it — is handed to the kernel. -/
+theorem epsmatch_inside_trapezoid_given_merge {lk : Lookup} (hlk : FourLetter lk) (t q : List UInt8)
     (k n e off g : Nat) (selfAlign : Bool)
     (hk : Biogo.Kmer.minKmerLen ≤ k) (hk' : k ≤ Biogo.Kmer.maxKmerLen) (ht : k + 1 ≤ t.length)
     (hq : Biogo.Proofs.FilterComplete.AllValid lk q) (htv : Biogo.Proofs.FilterComplete.AllValid lk t)
@@ -92,21 +95,33 @@ theorem epsmatch_inside_trapezoid {lk : Lookup} (hlk : FourLetter lk) (t q : Lis
       ordered := by
         intro x hx
         obtain ⟨y, hy, rfl⟩ := List.mem_map.mp ((hsame x).mp hx)
-        have := hwf y hy
+        have := (hwf y hy).1
         simp only [toF]
         omega }
   have hin : toF h0 ∈ sorted := (hsame _).mpr (List.mem_map.mpr ⟨h0, hh0, rfl⟩)
-  have hnotcut : selfCut (mergerCfg lk t q k e off g selfAlign) (toF h0) = false := by
-    unfold selfCut
-    cases hs : selfAlign with
-    | false => simp [mergerCfg]
-    | true =>
-      have := hfar hs
-      simp only [mergerCfg, toF, Bool.true_and]
+  have hnotcut : dropped (mergerCfg lk t q k e off g selfAlign) (toF h0) = false := by
+    have hql : (mergerCfg lk t q k e off g selfAlign).qlen = (q.length : Int) := by
+      simp [Cfg.qlen, mergerCfg, validity]
+    have hbq : b + n ≤ q.length := hmatch.2.1
+    unfold dropped
+    rw [Bool.or_eq_false_iff]
+    constructor
+    · -- the band of the covering hit contains the diagonal of the match, which lies inside the query
+      unfold beyondQuery
+      rw [hql]
+      simp only [toF]
       apply decide_eq_false
       omega
+    · unfold selfCut
+      cases hs : selfAlign with
+      | false => simp [mergerCfg]
+      | true =>
+        have := hfar hs
+        simp only [mergerCfg, toF, Bool.true_and]
+        apply decide_eq_false
+        omega
   obtain ⟨T, hT, l1, l2, l3, l4⟩ := merger_covers_hits _ sorted traps pre hm (toF h0) hin hnotcut
-  have hk0 := hwf h0 hh0
+  have hk0 := (hwf h0 hh0).1
   rw [builtIndex_k] at hk0
   refine ⟨T, hT, ?_, ?_, ?_, ?_, ?_⟩
   · simp only [toF] at l1; omega
@@ -117,6 +132,98 @@ theorem epsmatch_inside_trapezoid {lk : Lookup} (hlk : FourLetter lk) (t q : Lis
     unfold preScreen
     apply decide_eq_true
     omega
+
+/-- **`filter_hits_in_merger_domain`** — every hit the filter model returns (query over the
+    four-letter alphabet, at least a word long) lies inside the domain of the merger model:
+    `From - bottomPadding ≤ Qlen + 1` (a hit starts at a query position already scanned), i.e. the
+    sentinel of the merger's active list stays an inert end marker. -/
+theorem filter_hits_in_merger_domain {lk : Lookup} (hlk : FourLetter lk) (t q : List UInt8)
+    (k n e off g : Nat) (selfAlign : Bool)
+    (hk : Biogo.Kmer.minKmerLen ≤ k) (hk' : k ≤ Biogo.Kmer.maxKmerLen)
+    (hq : Biogo.Proofs.FilterComplete.AllValid lk q) (hkq : k ≤ q.length)
+    (he : e ≤ off) (hoff : 1 ≤ off)
+    (hits : List Biogo.Filter.Hit)
+    (hf : filter Biogo.Generated.FilterFacts.rule lk (builtIndex lk k t)
+            { minMatch := n, maxError := e, tubeOffset := off } q selfAlign false = .ok hits) :
+    ∀ h ∈ hits, inDomain (mergerCfg lk t q k e off g selfAlign) (toF h) = true := by
+  have hk1 : 2 ≤ k ∧ 2 * k ≤ Biogo.Kmer.wordBits := by
+    unfold Biogo.Kmer.minKmerLen at hk; unfold Biogo.Kmer.maxKmerLen at hk'; unfold Biogo.Kmer.wordBits; omega
+  intro h hh
+  have hwf := Biogo.Proofs.PalsChain.filter_hits_wf hlk _ (builtIndex lk k t)
+    { minMatch := n, maxError := e, tubeOffset := off } q selfAlign false
+    (by rw [builtIndex_k]; omega) (by rw [builtIndex_k]; exact hk1.2) hq (by rw [builtIndex_k]; exact hkq)
+    he hoff hits hf h hh
+  have hql : (mergerCfg lk t q k e off g selfAlign).qlen = (q.length : Int) := by
+    simp [Cfg.qlen, mergerCfg, validity]
+  unfold inDomain
+  rw [hql]
+  simp only [toF, Cfg.bottomPadding, mergerCfg]
+  exact decide_eq_true (by omega)
+
+/-- **`filter_hits_within_query_band`** — when the query is at least a tube wide
+    (`TubeOffset + MaxError ≤ Qlen + 1`) no hit of the filter model lies beyond the last query row
+    (`-Diagonal ≤ Qlen`): the guard `Left > Qlen` of `MergeFilterHit` never fires.  The diagonal of a
+    hit is that of the tube index it is *emitted under* (by an evicting k-mer, a tick, or the final
+    flush over a circular array), so this needs a global invariant of the tube array
+    (`Proofs/PalsChainDomain.lean`).  The width condition is needed
+    (`filter_hit_beyond_query_narrow`): the wrap-around `tubeIndex 0 → cap-1` of `commonKmer` emits
+    under index `cap-1`, whose diagonal lies up to `TubeOffset + MaxError - 1` beyond the end of the
+    target — the sixth defect (`MergeFilterHit` walked off its list on such a hit). -/
+theorem filter_hits_within_query_band {lk : Lookup} (hlk : FourLetter lk) (t q : List UInt8)
+    (k n e off g : Nat) (selfAlign : Bool)
+    (hk : Biogo.Kmer.minKmerLen ≤ k) (hk' : k ≤ Biogo.Kmer.maxKmerLen) (ht : k + 1 ≤ t.length)
+    (hq : Biogo.Proofs.FilterComplete.AllValid lk q) (hkq : k ≤ q.length)
+    (hthr : 0 < minWordsPerFilterHit n k e) (he : e ≤ off) (hoff : 1 ≤ off) (hwide : off + e ≤ q.length + 1)
+    (hits : List Biogo.Filter.Hit)
+    (hf : filter Biogo.Generated.FilterFacts.rule lk (builtIndex lk k t)
+            { minMatch := n, maxError := e, tubeOffset := off } q selfAlign false = .ok hits) :
+    ∀ h ∈ hits, beyondQuery (mergerCfg lk t q k e off g selfAlign) (toF h) = false := by
+  have hk1 : 2 ≤ k ∧ 2 * k ≤ Biogo.Kmer.wordBits := by
+    unfold Biogo.Kmer.minKmerLen at hk; unfold Biogo.Kmer.maxKmerLen at hk'; unfold Biogo.Kmer.wordBits; omega
+  rw [Biogo.Properties.C14.rule_tie] at hf
+  intro h hh
+  obtain ⟨d1, _⟩ := Biogo.Proofs.PalsChainDomain.filter_hits_dom hlk t q k
+    { minMatch := n, maxError := e, tubeOffset := off } selfAlign (by omega) hk1.2 (by omega) hq hkq he hoff
+    (by show e + 1 ≤ q.length; omega) hwide hthr hits hf h hh
+  have hql : (mergerCfg lk t q k e off g selfAlign).qlen = (q.length : Int) := by
+    simp [Cfg.qlen, mergerCfg, validity]
+  unfold beyondQuery
+  rw [hql]
+  simp only [toF]
+  exact decide_eq_false (by omega)
+
+/-- **`epsmatch_inside_trapezoid`** — the chain without a hypothesis on the merger: for target and
+    query over the four-letter alphabet, the parameter ranges of C14's `filter_complete`,
+    `maxIGap ≥ 1`, a query at least a word long: let `hits` be what the filter model returns and
+    `sorted` any list with the same elements in ascending `From` (the morass).  Then **the merger
+    model answers** (`filter_hits_in_merger_domain` + `merger_total`: the filter's hits never reach
+    the sentinel of the active list) with a list `traps` in which every ε-match `t[a:a+n] ~ q[b:b+n]`
+    (at most `e` substitutions; in a self comparison at least `MaxError + maxIGap + tubeWidth`
+    diagonals above the main diagonal) lies: diagonal `b - a` within `[Left, Right]`, query interval
+    overlapping `[Bottom, Top]`, trapezoid at least `k` high — it passes the pre-screen of
+    `AlignTraps`: *ε-match ⇒ covered by a filter hit ⇒ inside a trapezoid handed to the DP*. -/
+theorem epsmatch_inside_trapezoid {lk : Lookup} (hlk : FourLetter lk) (t q : List UInt8)
+    (k n e off g : Nat) (selfAlign : Bool)
+    (hk : Biogo.Kmer.minKmerLen ≤ k) (hk' : k ≤ Biogo.Kmer.maxKmerLen) (ht : k + 1 ≤ t.length)
+    (hq : Biogo.Proofs.FilterComplete.AllValid lk q) (htv : Biogo.Proofs.FilterComplete.AllValid lk t)
+    (hkq : k ≤ q.length)
+    (hthr : 0 < minWordsPerFilterHit n k e) (he : e ≤ off) (hoff : 1 ≤ off) (hg : 1 ≤ g)
+    (hits : List Biogo.Filter.Hit)
+    (hf : filter Biogo.Generated.FilterFacts.rule lk (builtIndex lk k t)
+            { minMatch := n, maxError := e, tubeOffset := off } q selfAlign false = .ok hits)
+    (sorted : List FHit) (hsame : ∀ x, x ∈ sorted ↔ x ∈ hits.map toF) (hsorted : SortedByFrom sorted) :
+    ∃ traps, merge (mergerCfg lk t q k e off g selfAlign) sorted = some traps ∧
+      ∀ a b, EpsMatch lk t q n e a b → required selfAlign a b = true →
+        (selfAlign = true → (b : Int) - a > (e : Int) + g + ((off : Int) + e - 1)) →
+        ∃ T ∈ traps, T.left ≤ (b : Int) - a ∧ (b : Int) - a ≤ T.right ∧
+          T.bottom < (b : Int) + n ∧ (b : Int) < T.top ∧ preScreen k T = true := by
+  have hdom := filter_hits_in_merger_domain hlk t q k n e off g selfAlign hk hk' hq hkq he hoff hits hf
+  obtain ⟨traps, hm⟩ := merger_total (mergerCfg lk t q k e off g selfAlign) sorted (by
+    intro x hx
+    obtain ⟨y, hy, rfl⟩ := List.mem_map.mp ((hsame x).mp hx)
+    exact Or.inr (hdom y hy))
+  exact ⟨traps, hm, epsmatch_inside_trapezoid_given_merge hlk t q k n e off g selfAlign hk hk' ht hq htv hthr he hoff hg
+    hits hf sorted hsame hsorted traps hm⟩
 
 theorem except_ok_of_check {ε α : Type} [DecidableEq α] (x : Except ε α) (v : α)
     (h : (match x with | .ok a => decide (a = v) | .error _ => false) = true) : x = .ok v := by
@@ -144,11 +251,62 @@ example :
         · split at h
           · cases h; omega
           · cases h
-  exact epsmatch_inside_trapezoid hlk [99, 97, 97, 99, 99] [97, 99, 97, 97, 99, 97, 97, 97, 99, 97] 4 4 0 2 5 false
+  exact epsmatch_inside_trapezoid_given_merge hlk [99, 97, 97, 99, 99] [97, 99, 97, 97, 99, 97, 97, 97, 99, 97] 4 4 0 2 5 false
     (by decide) (by decide) (by decide)
     (by unfold Biogo.Proofs.FilterComplete.AllValid; decide) (by unfold Biogo.Proofs.FilterComplete.AllValid; decide)
     (by decide) (by decide) (by decide) (by decide)
     [⟨1, 5, -1⟩] (except_ok_of_check _ _ (by decide +kernel)) [⟨1, 5, -1⟩] (by simp [toF]) (by simp [SortedByFrom])
     [⟨5, 1, 1, 2⟩] (by decide +kernel) 0 1 (by decide +kernel) (by decide) (by intro h; cases h)
+
+/-- the same witness through `epsmatch_inside_trapezoid`: no hypothesis on the merger — the theorem
+    itself supplies the trapezoid list, and every ε-match of the pair lies in it -/
+example :
+    ∃ traps, merge (mergerCfg Biogo.Properties.C14.dna [99, 97, 97, 99, 99] [97, 99, 97, 97, 99, 97, 97, 97, 99, 97] 4 0 2 5 false)
+        [⟨1, 5, -1⟩] = some traps ∧
+      ∀ a b, EpsMatch Biogo.Properties.C14.dna [99, 97, 97, 99, 99] [97, 99, 97, 97, 99, 97, 97, 97, 99, 97] 4 0 a b →
+        required false a b = true → (false = true → (b : Int) - a > ((0 : Nat) : Int) + (5 : Nat) + (((2 : Nat) : Int) + (0 : Nat) - 1)) →
+        ∃ T ∈ traps, T.left ≤ (b : Int) - a ∧ (b : Int) - a ≤ T.right ∧
+          T.bottom < (b : Int) + (4 : Nat) ∧ (b : Int) < T.top ∧ preScreen (4 : Nat) T = true := by
+  have hlk : FourLetter Biogo.Properties.C14.dna := by
+    intro b d h
+    unfold Biogo.Properties.C14.dna at h
+    split at h
+    · cases h; omega
+    · split at h
+      · cases h; omega
+      · split at h
+        · cases h; omega
+        · split at h
+          · cases h; omega
+          · cases h
+  exact epsmatch_inside_trapezoid hlk [99, 97, 97, 99, 99] [97, 99, 97, 97, 99, 97, 97, 97, 99, 97] 4 4 0 2 5 false
+    (by decide) (by decide) (by decide)
+    (by unfold Biogo.Proofs.FilterComplete.AllValid; decide) (by unfold Biogo.Proofs.FilterComplete.AllValid; decide)
+    (by decide) (by decide) (by decide) (by decide) (by decide)
+    [⟨1, 5, -1⟩] (except_ok_of_check _ _ (by decide +kernel)) [⟨1, 5, -1⟩] (by simp [toF]) (by simp [SortedByFrom])
+
+/-! ### the width condition of `filter_hits_within_query_band` is needed (the sixth defect) -/
+
+/-- 22 × `a` then `acgt` -/
+def narrowT : List UInt8 := List.replicate 22 97 ++ [97, 99, 103, 116]
+/-- `acgt` then 22 × `t` -/
+def narrowQ : List UInt8 := [97, 99, 103, 116] ++ List.replicate 22 116
+
+/-- **`filter_hit_beyond_query_narrow`** — `k = 4, n = 24, e = 5, off = 30` (threshold 1), a 26-letter
+    target ending in `acgt` and a 26-letter query beginning with it (`TubeOffset + MaxError = 35 >
+    Qlen + 1`): the only common 4-mer lies on diagonal index 4 `< MaxError` of tube 0, `commonKmer`
+    also credits it to slot `cap-1 = 2`, and the final flush reports that slot as tube 2: the filter
+    model — and `filter.Filter` (second witness of the sixth defect in `corpus/C15.txt`, and the `fl`
+    run recorded in `notes/C15_merge.md`) — returns the hit `0:4:-34` whose band starts at
+    `-Diagonal = 34 > Qlen = 26`.  Before the repair `MergeFilterHit` walked past the end marker of
+    its list on it (nil dereference); now it is dropped and the merger returns the trapezoid of the
+    real hit alone. -/
+theorem filter_hit_beyond_query_narrow :
+    filter Biogo.Generated.FilterFacts.rule Biogo.Properties.C14.dna (builtIndex Biogo.Properties.C14.dna 4 narrowT)
+      { minMatch := 24, maxError := 5, tubeOffset := 30 } narrowQ false false = .ok [⟨0, 4, 26⟩, ⟨0, 4, -34⟩] ∧
+    beyondQuery (mergerCfg Biogo.Properties.C14.dna narrowT narrowQ 4 5 30 5 false) ⟨0, 4, -34⟩ = true ∧
+    merge (mergerCfg Biogo.Properties.C14.dna narrowT narrowQ 4 5 30 5 false) [⟨0, 4, 26⟩, ⟨0, 4, -34⟩]
+      = some [⟨4, 0, -26, 8⟩] :=
+  ⟨except_ok_of_check _ _ (by decide +kernel), by decide +kernel, by decide +kernel⟩
 
 end Biogo.Properties.C15_chain
